@@ -436,11 +436,14 @@ def _log_revision_iterator_using_per_file_graph(
     # Get the base revisions, filtering by the revision range.
     # Note that we always generate the merge revisions because
     # filter_revisions_touching_path() requires them ...
+    # _filter_revisions_touching_path looks the path up in the first revision
+    # and tracks merges newest-first, so always filter in reverse order and
+    # flip the result afterwards if a forward listing was asked for.
     view_revisions = _calc_view_revisions(
         branch,
         start_rev_id,
         end_rev_id,
-        direction,
+        "reverse",
         generate_merge_revisions=True,
         exclude_common_ancestry=exclude_common_ancestry,
     )
@@ -449,6 +452,8 @@ def _log_revision_iterator_using_per_file_graph(
     view_revisions = _filter_revisions_touching_path(
         branch, path, view_revisions, include_merges=levels != 1
     )
+    if direction == "forward":
+        view_revisions = _rebase_merge_depth(reverse_by_depth(view_revisions))
     return make_log_rev_iterator(branch, view_revisions, delta_type, match)
 
 
@@ -464,6 +469,28 @@ def _log_revision_iterator_using_delta_matching(
     exclude_common_ancestry,
     limit,
 ):
+    if specific_files and direction == "forward":
+        # Paths are followed backwards through history (adds, renames), so
+        # match newest-first and present the matches oldest-first.
+        matched = [
+            item
+            for batch in _log_revision_iterator_using_delta_matching(
+                branch,
+                delta_type,
+                match,
+                levels,
+                specific_files,
+                start_rev_id,
+                end_rev_id,
+                "reverse",
+                exclude_common_ancestry,
+                limit,
+            )
+            for item in batch
+        ]
+        by_view = {item[0]: item for item in matched}
+        ordered = reverse_by_depth([item[0] for item in matched])
+        return iter([[by_view[view] for view in ordered]])
     # Get the base revisions, filtering by the revision range
     generate_merge_revisions = levels != 1
     delayed_graph_generation = not specific_files and (
@@ -763,7 +790,8 @@ def _generate_all_revisions(
                     # -- vila 20100319
                     graph = branch.repository.get_graph()
                     if start_rev_id is not None and not graph.is_ancestor(
-                        start_rev_id, end_rev_id
+                        start_rev_id,
+                        end_rev_id if end_rev_id is not None else branch.last_revision(),
                     ):
                         raise _StartNotLinearAncestor()
                     # Since we collected the revisions so far, we need to
